@@ -300,7 +300,11 @@ class Gen:
             if len(normal) >= 2:
                 a, b = r.sample(normal, 2)
                 o.dep_req = {a.name: [b.name]}
-                if r.random() < 0.35:
+                if len(normal) >= 3 and r.random() < 0.2:
+                    x, y, z = r.sample(normal, 3)
+                    o.dep_req = {x.name: [y.name, z.name]}
+                    o.dep_req_split = ({x.name: [y.name]}, {x.name: [z.name]})
+                elif r.random() < 0.35:
                     grp = [f.name for f in r.sample(normal, min(len(normal), r.choice([2, 2, 3])))]
                     o.dep_req = {x: [y for y in grp if y != x] for x in grp}
                     o.dep_req_groups = [grp]
@@ -328,6 +332,7 @@ class Gen:
                 self._field_cons(f, base)
             elif r.random() < 0.08 and self.on("undefined", 1):
                 f.undefined = f.undef_nodefault = True  # key typed Union[X, UndefinedType]: Undefined only by construction, then omitted
+                f.undef_annotated = r.random() < 0.35
             return
         # default?
         if r.random() < 0.5:
@@ -369,6 +374,7 @@ class Gen:
                 f.initvar = True  # (forward references inside InitVar[...] are never resolved by typing)
             elif k < 0.12 and self.on("undefined", 1):
                 f.undefined = True
+                f.undef_annotated = r.random() < 0.35
                 if kind == "dataclass" and r.random() < 0.35:
                     f.undef_nodefault = True  # required key; the value Undefined can only be given by construction
             elif k < 0.18 and self.on("none_as_undefined", 1) and _non_none_alts(f.t) and not (isinstance(f.t, Ann) and isinstance(strip(f.t), Union_)):
@@ -565,6 +571,15 @@ def directed_shapes():
         return o
 
     out.append(("dependent-required-group", dep_req_group))
+
+    def dep_req_twice(g):
+        o = dep_req(g)
+        a, b, c = [f.name for f in o.fields]
+        o.dep_req = {a: [b, c]}
+        o.dep_req_split = ({a: [b]}, {a: [c]})
+        return o
+
+    out.append(("dependent-required-twice", dep_req_twice))
     for vals in (["a"], [1], [True], ["a", "b"], [0, ""]):
         out.append((f"opt-literal:{vals!r}", lambda g, vals=vals: opt(Lit(list(vals)))))
         out.append((f"opt-literal-field:{vals!r}", holder(lambda vals=vals: opt(Lit(list(vals))))))
